@@ -31,7 +31,8 @@ ASSUMPTIONS = [
 INJECT = ["none", "none", "raise_value", "raise_runtime", "raise_keyboard", "raise_abort", "raise_value_empty", "raise_keyboard_empty",
           "raise_assert_empty", "unknown_param", "probe_no_key", "nonfinite_param", "odd_param", "odd_param",
           "init_keyboard", "init_abort", "init_value", "unknown_param_nonstring",
-          "raise_key_empty", "raise_key_tuple", "raise_os_empty", "raise_args_two", "raise_system_exit"]
+          "raise_key_empty", "raise_key_tuple", "raise_os_empty", "raise_args_two", "raise_system_exit",
+          "unknown_processor", "unknown_param_then_unknown_processor"]
 NONFINITE = [float("inf"), float("-inf"), float("nan")]
 DETAILS = ["hash", "repr", "context", "all", "hash,repr"]
 
@@ -96,6 +97,16 @@ def materialise(case: Dict[str, Any]) -> Dict[str, Any]:
             (c["nodes"][at].get("params") or {}).pop(pname, None)
             c["ctx"][pname] = {"$odd": name}
             applied, c["fault_index"] = inj, at
+    elif inj in ("unknown_processor", "unknown_param_then_unknown_processor"):
+        # a processor reference that resolves to nothing, optionally after an earlier node with an unknown parameter:
+        # the error of the FIRST faulty node must be the one raised, traced or not
+        at = 1 + pos % max(1, len(c["nodes"]))
+        c["nodes"].insert(at, {"p": "NoSuchProcessorXYZ"})
+        if inj == "unknown_param_then_unknown_processor":
+            idxs = [i for i, n in enumerate(c["nodes"][:at]) if M.describe(n)["kind"] != "ctx" and not n.get("sweep")]
+            if idxs:
+                c["nodes"][idxs[pos % len(idxs)]].setdefault("params", {})["zz"] = 1.0
+        applied, c["fault_index"] = inj, at
     elif inj == "unknown_param_nonstring":
         # YAML turns `on:` / `0:` into non-string keys; such a parameter name is unknown to every processor
         idxs = [i for i, n in enumerate(c["nodes"]) if M.describe(n)["kind"] != "ctx" and not n.get("sweep") and not n.get("params")]
@@ -272,7 +283,9 @@ def _fault_kind(applied: str, ref) -> str:
 
 def plan(tier: str, seed: int, scale: float = 1.0) -> List[Dict[str, Any]]:
     nshards, n = (48, 200) if tier == "quick" else (256, 220)
-    return [{"seed": seed * 4099 + i, "n": max(10, int(n * scale)), "timeout": 900} for i in range(nshards)]
+    # the environment a run starts in is recorded in every SER (environment pins): three settings of the documented variable
+    envs = [{}, {"SEMANTIVA_GIT_REV": "0123abc"}, {"SEMANTIVA_GIT_REV": "v0.5.0-3-g0123abc-dirty"}]
+    return [{"seed": seed * 4099 + i, "n": max(10, int(n * scale)), "timeout": 900, "env": envs[i % 3]} for i in range(nshards)]
 
 
 def run_shard(spec: Dict[str, Any]) -> Dict[str, Any]:
@@ -303,6 +316,7 @@ def label_requirements(tier: str) -> Dict[str, Any]:
     req: Dict[str, Any] = {"mode:file": 0.3, "mode:dir": 0.15, "mode:dir_dotted": 0.1, "ok": 0.15, "fails": 0.3}
     for f in ("raise_value", "raise_keyboard", "raise_abort", "raise_value_empty", "raise_keyboard_empty", "raise_assert_empty", "nonfinite_param", "odd_param", "init_keyboard", "init_abort", "init_value", "unknown_param_nonstring",
               "raise_key_empty", "raise_key_tuple", "raise_os_empty", "raise_args_two", "raise_system_exit",
+              "unknown_processor", "unknown_param_then_unknown_processor",
               "unknown_param", "probe_no_key", "unresolved_parameter", "type_gate", "processor_exception"):
         req["fault:" + f] = 0.006
         for d in ("hash", "repr", "context", "all"):
